@@ -109,11 +109,14 @@ class Run:
         self.events: list[dict] = []
         # (job, phase) -> [kind, remaining times]
         self.remaining: dict[tuple[str, str], list] = {}
+        # kind "lose": jobs whose latest output instance is deleted when the failure is injected
+        self.victims: dict[tuple[str, str], list[str]] = {}
         for p in plan:
             key = (p["job"], p["phase"])
             if key in self.remaining:
                 raise HarnessError(f"duplicate failure point {key}")
             self.remaining[key] = [p["kind"], int(p["times"])]
+            self.victims[key] = list(p.get("victims", []))
         # job -> output instances [{"seq": seq of the "done" event, "files": [paths]}] (every completed execution)
         self.hist: dict[str, list[dict]] = {}
         self.content: dict[str, str] = {}  # path -> content written (logical value of an output file)
@@ -231,6 +234,24 @@ def _delete_workdir(context, job: Job) -> None:
         rec["lost_during"].update(lost)
 
 
+def _delete_outputs(job: Job, victims: list[str]) -> None:
+    """Selective loss: the output directory of the latest completed execution of each victim job
+    vanishes (a single directory lost on a volatile location); everything else stays on disk."""
+    r = _run()
+    before = r.missing_instances()
+    for v in victims:
+        insts = r.hist.get(v) or []
+        if insts:
+            for d in sorted({os.path.dirname(f) for f in insts[-1]["files"]}):
+                if VOLATILE not in d:
+                    raise HarnessError(f"refusing to delete {d}")
+                shutil.rmtree(d, ignore_errors=True)
+    lost = sorted({j for j, _ in r.missing_instances() - before})
+    r.ev("delete", job.name, workdir="outputs:" + ",".join(victims), lost=lost)
+    for rec in r.open_recoveries.values():
+        rec["lost_during"].update(lost)
+
+
 def _inject(context, job: Job, phase: str) -> bool:
     r = _run()
     kind = r.take(job.name, phase)
@@ -239,6 +260,8 @@ def _inject(context, job: Job, phase: str) -> bool:
     r.ev("fail", job.name, phase=phase, kind=kind)
     if kind == "stop":
         _delete_workdir(context, job)
+    elif kind == "lose":
+        _delete_outputs(job, r.victims.get((job.name, phase), []))
     return True
 
 
@@ -994,6 +1017,7 @@ class Result:
         self.simultaneous_completions = 0
         self.recovery_wfs: list = []  # workflows run by the failure manager (harness-side tracking)
         self.barrier_stuck = False
+        self.dup_tag_ports: list[str] = []  # "<wf>:<port>" of recovery-workflow ports holding a tag twice
         self.wf = None  # the original workflow (inspected at a deadlock)
         self.starved: list[str] = []  # at a deadlock: "<StepClass>:<PortClass>" of steps waiting on a port nobody feeds
 
@@ -1077,26 +1101,41 @@ class _DetUUID:
 
 
 def resolve_plan(shape: Shape, plan: list) -> list[dict]:
-    """case plan entries ``[step index, tag index, phase, kind, times]`` -> job names (indices are taken
-    modulo the available steps / tags, so every drawn entry is valid); duplicates of a failure point
-    are merged (times added, 'stop' wins)."""
+    """case plan entries ``[step index, tag index, phase, kind, times(, barrier(, victims))]`` -> job
+    names (indices are taken modulo the available steps / tags, so every drawn entry is valid);
+    duplicates of a failure point are merged (times added, 'stop' wins over 'lose' over 'soft').
+    ``victims`` (kind "lose") is a list of ``[step index, tag index]``."""
+    rank = {"soft": 0, "lose": 1, "stop": 2}
+
+    def job_of(si: int, ti: int) -> str | None:
+        step = shape.steps[si % len(shape.steps)]
+        tags = shape.tags(step)
+        return posixpath.join(step["name"], tags[ti % len(tags)]) if tags else None
+
     out: dict[tuple[str, str], dict] = {}
     for entry in plan:
         si, ti, phase, kind, times = entry[0], entry[1], entry[2], entry[3], entry[4]
-        step = shape.steps[si % len(shape.steps)]
-        tags = shape.tags(step)
-        if not tags:
+        job = job_of(si, ti)
+        if job is None:
             continue
-        job = posixpath.join(step["name"], tags[ti % len(tags)])
         key = (job, phase)
         if key in out:
             out[key]["times"] += int(times)
-            if kind == "stop":
-                out[key]["kind"] = "stop"
+            if rank[kind] > rank[out[key]["kind"]]:
+                out[key]["kind"] = kind
         else:
             out[key] = {"job": job, "phase": phase, "kind": kind, "times": int(times)}
         if len(entry) > 5 and entry[5] and phase == "execute":
             out[key]["barrier"] = True
+        if len(entry) > 6 and entry[6]:
+            vs = out[key].setdefault("victims", [])
+            for vsi, vti in entry[6]:
+                v = job_of(vsi, vti)
+                if v is not None and v != job and v not in vs:
+                    vs.append(v)
+    for p in out.values():
+        if p["kind"] == "lose" and not p.get("victims"):
+            p["kind"] = "soft"  # nothing to lose
     return list(out.values())
 
 
@@ -1171,6 +1210,15 @@ async def _scenario(res: Result, shape_desc: dict, plan: list[dict], max_retries
             sum(isinstance(t, TerminationToken) for t in out_port.token_list) == 1
         )
         res.statuses = {name: step.status.name for name, step in wf.steps.items()}
+        for rwf in res.recovery_wfs:  # ports of recovery workflows that received one tag twice
+            for port in rwf.ports.values():
+                if isinstance(port, ConnectorPort) or port.name.startswith("size"):
+                    # connector tokens all carry tag "0"; the size token of a resumed ScatterStep is both
+                    # injected (it is always available) and regenerated, with the same value: harmless
+                    continue
+                tags = [t.tag for t in port.token_list if not isinstance(t, (TerminationToken, IterationTerminationToken))]
+                if len(set(tags)) < len(tags):
+                    res.dup_tag_ports.append(f"wf{rwf.persistent_id}:{port.name}")
         if manager == "default":
             res.versions = {name: req.version for name, req in ctx.failure_manager._retry_requests.items()}
         res.alloc_status = {name: a.status.name for name, a in ctx.scheduler.job_allocations.items()}
@@ -1344,7 +1392,7 @@ class View:
             self.planned_total[p["job"]] = self.planned_total.get(p["job"], 0) + p["times"]
             if p["phase"] == "execute":
                 self.planned_exec[p["job"]] = self.planned_exec.get(p["job"], 0) + p["times"]
-        self.has_stop = any(p["kind"] == "stop" for p in res.plan)
+        self.has_stop = any(p["kind"] in ("stop", "lose") for p in res.plan)
 
     def unavailable(self, rid: int) -> set[str]:
         """jobs with a lost output instance at some time between entry and exit of recovery ``rid``
@@ -1398,9 +1446,11 @@ class View:
             for e in self.res.run.events:
                 if e["ev"] == "start" and e["wf"] == orig:
                     n[e["job"]] = n.get(e["job"], 0) + 1
-            if any(k > 1 + self.own_exec.get(j, 0) for j, k in n.items()):
-                # a job ran twice in the *original* workflow without failing in between: its job token /
-                # input token arrived twice (duplicate tag propagated from recovery workflows)
+            if any(k > 1 + self.own_exec.get(j, 0) for j, k in n.items()) or self.res.dup_tag_ports:
+                # a job ran twice in the *original* workflow without failing in between (its job token /
+                # input token arrived twice), or a port of a recovery workflow received the same tag
+                # twice (injected available token + the one regenerated / propagated): nothing
+                # de-duplicates tags, GatherStep counts tokens
                 return "output-differs:duplicated-token"
         return output_kind(got, ref)
 
@@ -1422,7 +1472,17 @@ class View:
         if self.shape.kind == "loop":
             # "after-step-failure": a step of the loop body terminated FAILED (refused recovery / no
             # failure manager) and the loop machinery never terminates
-            return "loop-after-step-failure" if failed else "loop-recovery"
+            if not failed:
+                return "loop-recovery"
+            # which step failed: on the unchanged tree the loop sub-graph is not released when the
+            # FAILED termination comes from a step off the loop's output path (the counter branch) or
+            # from the body's ScheduleStep; a failed body Transfer/ExecuteStep does release it
+            names = [n for n, st in self.res.wf.steps.items() if st.status.name == "FAILED"]
+            if any(n.startswith("/increment") for n in names):
+                return "loop-after-step-failure:counter-branch"
+            if any(n.endswith("/__schedule__") for n in names):
+                return "loop-after-step-failure:schedule-step"
+            return "loop-after-step-failure:body"
         if failed:
             return "after-step-failure"
         if self.concurrent_pairs():
@@ -1457,7 +1517,7 @@ def recover_cap(shape: Shape, plan: list[dict]) -> int:
     1000 sampled correct runs needed at most 14 calls; retry storms and the unbounded re-submission of
     internal errors (up to ~2000 nested calls) are what it stops."""
     f = sum(p["times"] for p in plan)
-    d = sum(p["times"] for p in plan if p["kind"] == "stop")
+    d = sum(p["times"] for p in plan if p["kind"] in ("stop", "lose"))
     if shape.kind == "scatter":
         alive = shape.width + 1
     elif shape.kind == "diamond":
@@ -1475,7 +1535,7 @@ def safe_retries(shape: Shape, plan: list[dict]) -> int:
     deletion can make every job fail collaterally (missing directories / inputs). Deliberately generous:
     C16/C18/C19 are not about the bound (C17 is)."""
     f = sum(p["times"] for p in plan)
-    d = sum(p["times"] for p in plan if p["kind"] == "stop")
+    d = sum(p["times"] for p in plan if p["kind"] in ("stop", "lose"))
     # the tests use 10 for at most 8 roll-backs of one job; a job is rolled back once per failure of a
     # descendant (the "domino effect"), plus collateral failures after deletions
     # (a producer shared by n jobs is rolled back once per job that fails after a deletion: a scatter of
@@ -1494,7 +1554,7 @@ def classify(rec, res: Result, view: View) -> None:
     for ph in PHASES:
         if any(p["phase"] == ph for p in res.plan):
             rec.label(f"phase={ph}")
-    for kd in KINDS:
+    for kd in (*KINDS, "lose"):
         if any(p["kind"] == kd for p in res.plan):
             rec.label(f"kind={kd}")
     if any(p["times"] >= 2 for p in res.plan):
@@ -1517,7 +1577,7 @@ def classify(rec, res: Result, view: View) -> None:
 # Hypothesis strategies (case = JSON description; everything is built inside the check)
 
 
-def st_shape(kinds=("pipeline", "scatter", "diamond", "loop"), max_width: int = 12, tokens=("primitive", "file", "list", "object")):
+def st_shape(kinds=("pipeline", "scatter", "diamond", "loop"), max_width: int = 13, tokens=("primitive", "file", "list", "object")):
     from hypothesis import strategies as st
 
     ndep = st.sampled_from([1, 1, 1, 2, 3])
@@ -1526,7 +1586,9 @@ def st_shape(kinds=("pipeline", "scatter", "diamond", "loop"), max_width: int = 
     if "pipeline" in kinds:
         opts.append(st.fixed_dictionaries({"kind": st.just("pipeline"), "n": st.integers(1, 5), "token": token, "ndep": ndep}))
     if "scatter" in kinds:
-        width = st.one_of(st.integers(1, min(5, max_width)), st.integers(1, max_width))
+        # indices >= 10 matter (tags 0.10, 0.11 ... sort and match differently as strings)
+        big = [w for w in (11, 12, 13) if w <= max_width]
+        width = st.one_of(st.integers(1, min(5, max_width)), st.integers(1, max_width), *( [st.sampled_from(big)] if big else [] ))
         opts.append(
             st.fixed_dictionaries(
                 {
@@ -1548,11 +1610,19 @@ def st_shape(kinds=("pipeline", "scatter", "diamond", "loop"), max_width: int = 
 
 
 def st_plan(max_points: int = 4, max_times: int = 3, kinds=KINDS, phases=PHASES, min_points: int = 0):
+    """``kinds`` may include "lose" (selective loss): such a point carries 1..3 victims"""
     from hypothesis import strategies as st
 
+    plain = [k for k in kinds if k != "lose"]
     point = st.tuples(
-        st.integers(0, 9), st.integers(0, 11), st.sampled_from(list(phases)), st.sampled_from(list(kinds)), st.integers(1, max_times)
+        st.integers(0, 9), st.integers(0, 12), st.sampled_from(list(phases)), st.sampled_from(plain), st.integers(1, max_times)
     ).map(list)
+    if "lose" in kinds:
+        victims = st.lists(st.tuples(st.integers(0, 9), st.integers(0, 12)).map(list), min_size=1, max_size=3)
+        lose = st.tuples(
+            st.integers(0, 9), st.integers(0, 12), st.sampled_from(list(phases)), st.just("lose"), st.integers(1, 2), st.just(0), victims
+        ).map(list)
+        point = st.one_of(point, point, point, lose)
     return st.lists(point, min_size=min_points, max_size=max_points)
 
 
